@@ -35,7 +35,8 @@
 (*           (no_sig_action when sigs = <<>>, broken_sig_action otherwise); *)
 (*           the other directive gets a decoy                               *)
 (*   failopen "default" | "no" | "yes"                                      *)
-(*   req     required_fields: "default" (From Subject) | "from" | "fst"     *)
+(*   req     required_fields: "default" (From Subject) | "from" | "fst" (+To) *)
+(*           | "lc" (from subject, lower case)                              *)
 (*   subset  allow_body_subset: "absent" | "no" (the documented example)    *)
 (*                                                                         *)
 (* Joint rows in = [tab |-> "joint", ...]: check.spf + check.dkim + the     *)
@@ -75,18 +76,23 @@ Range(f) == {f[i] : i \in DOMAIN f}
 -----------------------------------------------------------------------------
 (* Actions (docs/reference/checks/actions.md, FailActionDirective):         *)
 (* ignore | quarantine | reject, the last two optionally with an SMTP code, *)
-(* enhanced code and text.                                                  *)
-Acts == {"default", "ignore", "quarantine", "reject", "reject4", "reject5", "quarcode"}
+(* enhanced code and text (the arguments are from the code:                 *)
+(* framework/config/module/check_action.go, same syntax as the documented   *)
+(* reject directive of smtp-pipeline.md).                                   *)
+Acts == {"default", "ignore", "quarantine", "reject", "reject1", "reject4", "reject5", "quarcode"}
 ActArgs(a) == CASE a = "ignore"     -> <<"ignore">>
                 [] a = "quarantine" -> <<"quarantine">>
                 [] a = "reject"     -> <<"reject">>
+                [] a = "reject1"    -> <<"reject", "451">>          \* enhanced code x.7.0 of the code's class
                 [] a = "reject4"    -> <<"reject", "450", "4.7.0", "come back later">>
                 [] a = "reject5"    -> <<"reject", "554", "5.7.1", "local policy">>
                 [] a = "quarcode"   -> <<"quarantine", "554", "5.7.1", "local policy">>
-ActClass(a) == IF a \in {"reject", "reject4", "reject5"} THEN "reject"
+ActClass(a) == IF a \in {"reject", "reject1", "reject4", "reject5"} THEN "reject"
                ELSE IF a \in {"quarantine", "quarcode"} THEN "quarantine" ELSE "ignore"
-HasReply(a) == a \in {"reject4", "reject5"}
-ReplyOf(a)  == IF a = "reject4" THEN [code |-> 450, enh |-> "4.7.0"] ELSE [code |-> 554, enh |-> "5.7.1"]
+HasReply(a) == a \in {"reject1", "reject4", "reject5"}
+ReplyOf(a)  == CASE a = "reject1" -> [code |-> 451, enh |-> "4.7.0"]
+                 [] a = "reject4" -> [code |-> 450, enh |-> "4.7.0"]
+                 [] OTHER         -> [code |-> 554, enh |-> "5.7.1"]
 (* an action of another class than a (for the directives the row is not about) *)
 Decoy(a) == IF ActClass(a) = "reject" THEN "quarantine" ELSE "reject"
 
@@ -201,7 +207,8 @@ NKinds == Len(KindSeq)
 SigDoms == <<"signer.example", "other.example", "signer.example">>   \* by position
 
 (* required_fields *)
-ReqArgs(r) == CASE r = "from" -> <<"From">> [] r = "fst" -> <<"From", "Subject", "To">> [] OTHER -> <<>>
+ReqArgs(r) == CASE r = "from" -> <<"From">> [] r = "fst" -> <<"From", "Subject", "To">>
+                [] r = "lc" -> <<"from", "subject">> [] OTHER -> <<>>    \* field names are case-insensitive
 ReqSet(r) == CASE r = "from" -> {"From"} [] r = "fst" -> {"From", "Subject", "To"} [] OTHER -> {"From", "Subject"}
 SignedBy(k) == CASE k = "nosubj" -> {"From", "To", "Date"}
                  [] k = "noto"   -> {"From", "Subject", "Date"}
@@ -290,7 +297,8 @@ AsIs(i) == RuleD(Devs, i)
 
 -----------------------------------------------------------------------------
 (* The property, one named predicate per clause of the statement.           *)
-ArOf(o, m) == SelectSeq(o.ar, LAMBDA e : e.m = m)
+Proj(e) == [m |-> e.m, v |-> e.v, a |-> e.a, b |-> e.b]      \* (the harness also logs the reason text)
+ArOf(o, m) == SelectSeq([n \in DOMAIN o.ar |-> Proj(o.ar[n])], LAMBDA e : e.m = m)
 Delivered(o) == o.cfg = "ok" /\ o.class \in {"accept", "quarantine"}
 (* number of entries of sequence s equal to x *)
 Count(s, x) == Cardinality({n \in DOMAIN s : s[n] = x})
@@ -408,7 +416,6 @@ Prop(i, o) == Viol(i, o) = {}
 
 (* exact agreement with a rule output (drift otherwise); the order of the   *)
 (* entries of checks that run concurrently is not fixed                     *)
-Proj(e) == [m |-> e.m, v |-> e.v, a |-> e.a, b |-> e.b]
 SameOut(i, o, r) ==
   /\ o.cfg = r.cfg /\ o.stage = r.stage /\ o.class = r.class /\ o.code = r.code /\ o.enh = r.enh
   /\ LET oa == [n \in DOMAIN o.ar |-> Proj(o.ar[n])] IN
@@ -450,7 +457,7 @@ FailOpens == {"default", "no", "yes"}
 Reqs == {"default", "from", "fst"}
 (* (e) no signature / one signature: every action *)
 InDkimOne ==
-  \E ks \in {<<>>} \cup {<<a>> : a \in 1..NKinds}, act \in Acts, fo \in FailOpens, req \in Reqs :
+  \E ks \in {<<>>} \cup {<<a>> : a \in 1..NKinds}, act \in Acts, fo \in FailOpens, req \in Reqs \cup {"lc"} :
     in = DkimRow("one", SigsOf(ks), act, fo, req, "absent")
 (* (f) every ordered pair of signatures *)
 InDkimTwo ==
